@@ -1,5 +1,5 @@
 from .. import common, mir
-from ..rules import dec
+from ..rules import dec, c04
 
 
 def run(tier, replay=None):
@@ -12,5 +12,8 @@ def run(tier, replay=None):
         dec.c01_object(rep, crate, cfg)
         r = dec.roles_sbd(crate)
         dec.c01_solve(rep, crate, cfg, r)
+        dec.c01_rebuild_fresh(rep, crate, cfg)
         dec.c02_block(rep, crate, cfg, r)
+        # encoder and decoder must agree on ESI -> ISI (a packet's label and its payload), else no round trip
+        c04.run_isi(rep, crate, cfg)
     return rep.finish("other", "decoder returns exactly the object: structural clauses", "./check C01 %s" % tier)
